@@ -1,0 +1,63 @@
+//go:build verif
+
+package proxy
+
+import (
+	"reservoir/cache"
+	"time"
+)
+
+// Accessors for external verification harnesses (build tag `verif`).
+
+type verifCache interface {
+	VerifRunCleanupCycle()
+	VerifLimits() (int64, int64)
+	VerifByteSize() int64
+	VerifLen() int
+	VerifKeys() []cache.CacheKey
+}
+
+// VerifStat describes a stored entry without touching its access time semantics
+// beyond what GetMetadata itself does.
+type VerifStat struct {
+	Found        bool
+	Stale        bool
+	Size         int64
+	Expires      time.Time
+	TimeWritten  time.Time
+	ETag         string
+	LastModified time.Time
+}
+
+func (p *Proxy) VerifCacheDelete(key cache.CacheKey) error { return p.cache.Delete(key) }
+
+func (p *Proxy) VerifCacheStat(key cache.CacheKey) VerifStat {
+	var st VerifStat
+	err := p.cache.UpdateMetadata(key, func(m *cache.EntryMetadata[cachedRequestInfo]) {
+		st.Found = true
+		st.Size = m.Size
+		st.Expires = m.Expires
+		st.TimeWritten = m.TimeWritten
+		st.ETag = m.Object.ETag
+		st.LastModified = m.Object.LastModified
+		st.Stale = m.Expires.Before(time.Now())
+	})
+	if err != nil {
+		return VerifStat{}
+	}
+	return st
+}
+
+// VerifCacheSetExpires moves the expiry of a stored entry (used to make entries stale
+// without sleeping).
+func (p *Proxy) VerifCacheSetExpires(key cache.CacheKey, t time.Time) error {
+	return p.cache.UpdateMetadata(key, func(m *cache.EntryMetadata[cachedRequestInfo]) {
+		m.Expires = t
+	})
+}
+
+func (p *Proxy) VerifRunCleanupCycle()            { p.cache.(verifCache).VerifRunCleanupCycle() }
+func (p *Proxy) VerifCacheLimits() (int64, int64) { return p.cache.(verifCache).VerifLimits() }
+func (p *Proxy) VerifCacheByteSize() int64        { return p.cache.(verifCache).VerifByteSize() }
+func (p *Proxy) VerifCacheLen() int               { return p.cache.(verifCache).VerifLen() }
+func (p *Proxy) VerifCacheKeys() []cache.CacheKey { return p.cache.(verifCache).VerifKeys() }
